@@ -347,12 +347,19 @@ def _run_variant(case, res, real, prop, stats, label, ops, thunk, dt, s):
         what = "a tensor of shape %s" % list(out.shape) if torch.is_tensor(out) else type(out).__name__
         problems.append(P(prop, "kind", case, "expected a TT object with shape %s, got %s" % (list(res["d"]["N"]), what), real))
         return problems
+    ed = res["d"]
+    try:        # what the result *reports* about itself is part of "the same resulting shape"
+        rep = (bool(out.is_ttm), [int(n) for n in out.N], [int(m) for m in out.M] if out.is_ttm else [])
+        if rep != (ed["k"] == "ttm", list(ed["N"]), list(ed["M"])):
+            problems.append(P(prop, "shape-reported", case, "result reports is_ttm=%s N=%s M=%s, expected %s N=%s M=%s" % (
+                rep[0], rep[1], rep[2], ed["k"], list(ed["N"]), list(ed["M"])), real))
+    except Exception as e:   # noqa
+        problems.append(P(prop, "shape-reported", case, "reading N / M of the result raised %s" % type(e).__name__, real))
     wf = project.wf_problems(out)
     if wf:
         problems.append(P("C05", "ill-formed", case, "result of %s ill-formed: %s" % (case["op"], wf), real, {"operand": "result"}))
         return problems
     d = project.derived_desc(out.cores)
-    ed = res["d"]
     if d["k"] != ed["k"] or d["N"] != list(ed["N"]) or d["M"] != list(ed["M"]):
         problems.append(P(prop, "shape", case, "result is %s N=%s M=%s, expected %s N=%s M=%s" % (
             d["k"], d["N"], d["M"], ed["k"], list(ed["N"]), list(ed["M"])), real))
